@@ -111,20 +111,24 @@ def parseObs (line : String) : Option Obs :=
     let o ← kv "o" fo
     let order ← parseNats o
     let i ← kv "i" fi
-    let (iop, iops) ←
-      if i == "-" then some (none, [])
+    let (iop, iops, inum) ←
+      if i == "-" then some (none, [], 0)
       else match i.splitOn ":" with
-        | [op, _n, pairs] => do
+        | [op, n, pairs] => do
           let opn ← op.toNat?
+          let nn ← n.toNat?
           let ops ← if pairs == "-" then some []
                     else (pairs.splitOn ",").mapM (fun pr => ((pr.splitOn "/").headD "").toNat?)
-          pure (some opn, ops)
+          pure (some opn, ops, nn)
         | _ => none
+    let isrS ← kv "isr" fisr
+    let isr ← parseNats isrS
+    let minisr ← (msParts[6]?).bind String.toInt?
     match ws, msParts.map String.toNat? with
     | [leo, hw, ck], (some ep :: some le :: some ld :: some role :: _) =>
-      pure { err := e, replies := replies, leo := leo, hw := hw, ckpt := ck, epoch := ep, lepoch := le,
+      pure { isr := isr, minISR := minisr, err := e, replies := replies, leo := leo, hw := hw, ckpt := ck, epoch := ep, lepoch := le,
              leader := ld, role := role, progress := progress, pending := pending, order := order,
-             inflightOp := iop, inflightOps := iops,
+             inflightOp := iop, inflightOps := iops, inflightN := inum,
              stateText := " ".intercalate [fw, fm, frp, fisr, fpr, fp, fo, fi] }
     | _, _ => none
   | _ => none
@@ -240,6 +244,10 @@ def judge (ev : Option Event) (prev cur : Obs) : String :=
   if !judgeMatches cur then "viol:match-exceeds-leo" else
   if !judgeHWMono prev cur then "viol:hw-decreased-within-fence" else
   if !judgeConsistent cur then "viol:pending-order-inconsistent" else
+  let isQC := match ev with
+    | some (.quorum ..) => true
+    | _ => false
+  if !judgeHWQuorum isQC prev cur then "viol:hw-advanced-beyond-quorum-match" else
   let rv := judgeReplies prev cur
   if rv != "ok" then rv else
   let unchanged := cur.stateText == prev.stateText && cur.replies.isEmpty
@@ -258,6 +266,20 @@ def judge (ev : Option Event) (prev cur : Obs) : String :=
     if m != prev.leo && !(unchanged && (cur.err == "stale")) then "viol:stopped-ack-not-at-leo-accepted" else "ok"
   | _ => "ok"
 
+/-- the part of the implementation's previous observation that the relative op tokens
+    (`cur`, `n`, `f`, `leo`) refer to, as a model state: the judge reads every op the way
+    the IMPLEMENTATION saw it, never through the model's state -/
+def stateOfObs (o : Obs) : State :=
+  { epoch := o.epoch, lepoch := o.lepoch, leader := o.leader, role := o.role, leo := o.leo, hw := o.hw,
+    ckpt := o.ckpt,
+    inflight := o.inflightOp.map (fun op => { op := op, recs := List.replicate o.inflightN 0,
+                                               ops := o.inflightOps, counts := [] }) }
+
+def eventOf : Parsed → Option Event
+  | .ev e => some e
+  | .plainEv e => some e
+  | _ => none
+
 structure DState where
   s : State := {}
   fresh : Bool := true
@@ -268,9 +290,10 @@ def obsOfModel (s : State) : Obs :=
 
 def c06Step (d : DState) (op impl : String) : DState × String × String :=
   let prev := d.prev.getD (obsOfModel d.s)
-  let finish (s' : State) (m : String) (ev : Option Event) : DState × String × String :=
+  let finish (s' : State) (m : String) (_ : Option Event) : DState × String × String :=
     match parseObs impl with
-    | some cur => ({ s := s', fresh := false, prev := some cur }, m, judge ev prev cur)
+    | some cur => ({ s := s', fresh := false, prev := some cur }, m,
+                   judge (eventOf (parseOp (stateOfObs prev) op)) prev cur)
     | none => ({ s := s', fresh := false, prev := some (obsOfModel s') }, m, "viol:unparseable-output")
   match parseOp d.s op with
   | .bad => ({ d with fresh := false }, "bad-op", "ok")
